@@ -155,6 +155,41 @@ mut('C02', 'worker_failure_not_recorded_in_run_error', S, """							node.setStat
 							node.setErr(execErr)
 							sc.setLastError(execErr)""", """							node.setStatus(NodeStatusError)
 							node.setErr(execErr)""")
+# ---- C05 (more)
+AG = 'internal/agent/agent.go'
+mut('C05', 'kill_only_reaches_running_steps', N, """	stopping := status == NodeStatusCancel && n.data.State.FinishedAt.IsZero()
+	if (status == NodeStatusRunning || stopping) && n.cmd != nil {""", """	if status == NodeStatusRunning && n.cmd != nil {""")
+mut('C05', 'signal_on_stop_always_overrides', N, """		if allowOverride && n.data.Step.SignalOnStop != "" {""", """		if n.data.Step.SignalOnStop != "" {""")
+mut('C05', 'signal_on_stop_ignored', N, """		if allowOverride && n.data.Step.SignalOnStop != "" {
+			sigsig = unix.SignalNum(n.data.Step.SignalOnStop)
+		}""", """		_ = unix.SignalNum""")
+mut('C05', 'stop_does_not_register_cancel', S, """	if !sc.isCanceled() {
+		sc.setCanceled()
+	}
+	for _, node := range g.Nodes() {
+		// for a repetitive task""", """	for _, node := range g.Nodes() {
+		// for a repetitive task""")
+mut('C05', 'repeating_steps_signalled_too', S, """		if !node.data.Step.RepeatPolicy.Repeat {
+			node.signal(sig, allowOverride)
+		}""", """		node.signal(sig, allowOverride)""")
+mut('C05', 'only_first_step_signalled', S, """		if !node.data.Step.RepeatPolicy.Repeat {
+			node.signal(sig, allowOverride)
+		}""", """		if !node.data.Step.RepeatPolicy.Repeat {
+			node.signal(sig, allowOverride)
+			break
+		}""")
+mut('C05', 'escalation_sends_term_again', AG, """			a.scheduler.Signal(a.graph, syscall.SIGKILL, nil, false)""", """			a.scheduler.Signal(a.graph, sig, nil, false)""")
+mut('C05', 'escalation_can_be_overridden', AG, """			a.scheduler.Signal(a.graph, syscall.SIGKILL, nil, false)""", """			a.scheduler.Signal(a.graph, syscall.SIGKILL, nil, true)""")
+mut('C05', 'escalation_timer_is_fixed', AG, """	timeout := time.NewTimer(a.dag.MaxCleanUpTime)""", """	timeout := time.NewTimer(time.Hour)""")
+mut('C05', 'stop_request_sends_kill', AG, """			a.signal(syscall.SIGTERM, true)""", """			a.signal(syscall.SIGKILL, true)""")
+mut('C05', 'stop_request_ignores_signal_on_stop', AG, """			a.signal(syscall.SIGTERM, true)""", """			a.signal(syscall.SIGTERM, false)""")
+mut('C05', 'worker_executes_after_stop', S, """				for setupSucceed && !sc.isCanceled() {""", """				for setupSucceed {""")
+mut('C05', 'timeout_not_applied', S, """		ctx, cancel = context.WithTimeout(ctx, sc.timeout)""", """		ctx, cancel = context.WithTimeout(ctx, sc.timeout*1000)""")
+mut('C05', 'canceled_run_reported_failed', S, """	if sc.isCanceled() && !sc.isSucceed(g) {
+		return StatusCancel
+	}""", """	if sc.isCanceled() && !sc.isSucceed(g) {
+		return StatusError
+	}""")
 # ---- C10
 mut('C10', 'interrupted_steps_not_reset', G, """				dict[u] == NodeStatusCancel || dict[u] == NodeStatusRunning {""", """				dict[u] == NodeStatusCancel {""")
 mut('C10', 'canceled_steps_not_reset', G, """			if retry[u] || dict[u] == NodeStatusError ||
